@@ -307,6 +307,14 @@ class Interp(ExprMixin, CallMixin, AnyMixin):
         raise Unsupported(f"with {cm!r}")
 
     # ------------------------------------------------------------------ loops
+    def find_loop_spec(self, env, node):
+        """(function key, ordinal) -> LoopSpec; a task may also register one default spec for every loop of a module under
+        ("<module>:*", "*") - only sensible for specs that do not mention the loop (trivial invariant, empty frame)."""
+        spec = self.loop_specs.get((env.func.key, self.loop_ordinal(env, node)))
+        if spec is None:
+            spec = self.loop_specs.get((env.func.key.split(":", 1)[0] + ":*", "*"))
+        return spec
+
     def loop_ordinal(self, env, node):
         loops = self.tree.loops_of(env.func)
         for i, l in enumerate(loops):
@@ -318,7 +326,7 @@ class Interp(ExprMixin, CallMixin, AnyMixin):
         it = self.eval(node.iter, env)
         spec = None
         if env.func is not None:
-            spec = self.loop_specs.get((env.func.key, self.loop_ordinal(env, node)))
+            spec = self.find_loop_spec(env, node)
         if isinstance(it, tuple) and it and it[0] == "range":
             rargs = it[1:]
             if len(rargs) == 1:
@@ -353,7 +361,7 @@ class Interp(ExprMixin, CallMixin, AnyMixin):
             self.exec_block(node.orelse, env)
 
     def s_While(self, node, env):
-        spec = self.loop_specs.get((env.func.key, self.loop_ordinal(env, node)))
+        spec = self.find_loop_spec(env, node)
         if spec is None:
             # concrete mode only (encoder cross-check): the test must evaluate to a definite value every time
             for _ in range(100000):
@@ -719,52 +727,68 @@ class Interp(ExprMixin, CallMixin, AnyMixin):
 
 
     def run_pair(self, harness_a, harness_b, compare, name="pair", max_paths=200000, prefixes=None, time_limit=None):
-        """Aligned co-execution (product proof): every path of A is replayed on B under the *same* decisions and the
-        same fresh-symbol numbering; compare(interp, info_a, info_b, path_b) states the relational obligations."""
+        """Guided co-execution (relational proof): every path of A is followed by B *under A's path condition and A's
+        environment choices* (same fresh-symbol numbering, so the k-th environment answer is the same symbol on both sides).
+        Branches of B that A's path condition decides are forced; where B distinguishes more than A it forks, and every such
+        B path is compared with the A path.  compare(interp, info_a, info_b, path_b) states the relational obligations
+        (checked under the joint path condition).  No structural similarity of the two bodies is required."""
         work = [list(p) for p in (prefixes if prefixes is not None else [[]])]
         res = RunResult(name)
         t0 = time.time()
         n = 0
+
+        def run_side(harness, path, side, prefix):
+            self.path = path
+            self.depth = 0
+            self.frames = []
+            end, out = "done", None
+            try:
+                out = harness(self)
+            except PathEnd as e:
+                end = f"end:{e}"
+            except Unsupported as e:
+                end = "unsupported"
+                res.unsupported.append(f"{side}: {e} [path {prefix}]")
+            except PyRaise as e:
+                end = "unsupported"
+                res.unsupported.append(f"{side}: uncaught PyRaise {e.exc!r}")
+            return {"taken": list(path.taken), "alts": list(path.alts), "pc": list(path.pc), "end": end, "trace": list(path.trace),
+                    "out": out, "path": path, "choices": list(path.choices), "guide_mismatch": path.guide_mismatch}
+
         while work:
             prefix = work.pop()
             n += 1
             if n > max_paths or (time_limit and time.time() - t0 > time_limit):
                 res.errors.append("budget exceeded")
                 break
-            infos = []
-            for side, harness in (("A", harness_a), ("B", harness_b)):
-                reset_names()
-                path = Path(self.solver, prefix if side == "A" else infos[0]["taken"], f"{name}#{n}{side}")
-                path.quantified = getattr(self, "quantified", False)
-                path.check_obligations = False
-                if side == "B":
-                    path.stop_at = len(infos[0]["taken"])
-                self.path = path
-                self.depth = 0
-                self.frames = []
-                end = "done"
-                out = None
-                try:
-                    out = harness(self)
-                except PathEnd as e:
-                    end = f"end:{e}"
-                except Unsupported as e:
-                    end = "unsupported"
-                    res.unsupported.append(f"{side}: {e} [path {prefix}]")
-                except PyRaise as e:
-                    end = "unsupported"
-                    res.unsupported.append(f"{side}: uncaught PyRaise {e.exc!r}")
-                infos.append({"taken": list(path.taken), "alts": list(path.alts), "pc": list(path.pc), "end": end,
-                              "trace": list(path.trace), "out": out, "path": path})
-            a, b = infos
-            pb = b["path"]
-            pb.check_obligations = True
-            compare(self, a, b, pb)
+            reset_names()
+            pa = Path(self.solver, prefix, f"{name}#{n}A")
+            pa.quantified = getattr(self, "quantified", False)
+            pa.check_obligations = False
+            a = run_side(harness_a, pa, "A", prefix)
+            work.extend(a["alts"])
             res.paths += 1
             res.ends[a["end"]] = res.ends.get(a["end"], 0) + 1
-            res.obligations.extend(pb.obligations)
-            res.covers |= pb.covers
-            work.extend(a["alts"])
+            if a["end"] in ("end:infeasible", "end:assume False"):
+                continue
+            bwork = [[]]
+            m = 0
+            while bwork:
+                bprefix = bwork.pop()
+                m += 1
+                reset_names()
+                pb = Path(self.solver, bprefix, f"{name}#{n}B{m}")
+                pb.quantified = getattr(self, "quantified", False)
+                pb.check_obligations = False
+                pb.guide(a["pc"], a["choices"])
+                b = run_side(harness_b, pb, "B", prefix)
+                bwork.extend(b["alts"])
+                if b["end"] in ("end:infeasible", "end:assume False"):
+                    continue
+                pb.check_obligations = True
+                compare(self, a, b, pb)
+                res.obligations.extend(pb.obligations)
+                res.covers |= pb.covers
         res.wall = time.time() - t0
         res.solver_checks = self.solver.checks
         res.solver_time = self.solver.time
